@@ -53,7 +53,7 @@ func shard() (int, int) {
 func replayFile() string { return os.Getenv("VERIF_REPLAY_FILE") }
 
 // loadReplay decodes the replay file into v; returns false when not replaying.
-func loadReplay(t testing.TB, prop string, v interface{}) bool {
+func loadReplay(t testing.TB, prop string, v interface{}, subs ...string) bool {
 	p := replayFile()
 	if p == "" {
 		return false
@@ -68,6 +68,15 @@ func loadReplay(t testing.TB, prop string, v interface{}) bool {
 	}
 	if env.Property != prop {
 		t.Skipf("replay file is for %s", env.Property)
+	}
+	if len(subs) > 0 {
+		match := false
+		for _, s := range subs {
+			match = match || s == env.Sub
+		}
+		if !match {
+			t.Skipf("replay file is for sub-check %s", env.Sub)
+		}
 	}
 	if err := json.Unmarshal(env.Case, v); err != nil {
 		t.Fatalf("replay: case: %v", err)
